@@ -53,7 +53,9 @@ func (u *Unit) symParam(st *State, name string, t types.Type) Val {
 			u.assume(le(Term{"0", sInt}, v))
 		}
 	case KIface:
-		u.assume(Term{"(and (<= 0 (i-tag " + v.S + ")) (<= 0 (i-val " + v.S + ")) (< (i-val " + v.S + ") " + u.nextRef(st).S + "))", sBool})
+		u.assumeLive(st, v)
+	case KStruct:
+		u.assumeLive(st, v)
 	}
 	u.probes = append(u.probes, modelProbe{name, v.S, len(u.items)})
 	return v
